@@ -1278,7 +1278,9 @@ Proof.
   assert (B : from_reader example_sign1_bytes = Ok (example_sign1_value, [])) by (vm_compute; reflexivity).
   assert (C : DecodedNf.no_bad_bignum example_sign1_value = true) by (vm_compute; reflexivity).
   assert (D : CoseSign1_from_value example_sign1_value = Ok example_sign1) by (vm_compute; reflexivity).
-  repeat split; try assumption; try (vm_compute; reflexivity).
+  split; [exact A|]. split; [exact B|]. split; [exact C|]. split; [exact D|].
+  split; [vm_compute; reflexivity|]. split; [reflexivity|]. split; [reflexivity|].
+  split; [vm_compute; reflexivity|].
   exact (CoseSign1_bytes_fixed_point_full _ _ _ A B C D).
 Qed.
 
